@@ -8,6 +8,28 @@ NOTE_COMMON = ("Trusted: z3 5.1 (cvc5 cross-check where noted), CPython 3.12 / N
                "exact-real arithmetic standing for IEEE-754 unless the check says Float64.")
 
 CHECKS = {
+ 'C01': dict(
+   text="Bounded symbolic execution of the real control code: solve/multigrid/krylov/_terminate/MGParameters run path by path "
+        "on symbolic IEEE-754 doubles (tol, ||b||, and one Float64 per distinct field content for its TRUE residual norm, "
+        "shared by the code's residual() calls and by nondeterministic models of SciPy's bicgstab/cgs/gcrotmk written from "
+        "the SciPy 1.18 sources). Every comparison forks; on every finished path z3 (QF_FP, products abstracted with "
+        "counterexample-guided exact refinement) decides: exit 0 => residual of the returned content below tol*||b|| and "
+        "abs_error is that residual; zero source => zero field also in the caller's object; PEC and dtype of a supplied "
+        "field; failure => exit 1 + message. Exhaustive over paths within maxit<=2 (thorough 3) per configuration.",
+   note=NOTE_COMMON+" Numerics (smoothing, restriction, prolongation, residual values) are stubs whose contracts are C02-C04; Krylov recurrence residual == true residual (exact arithmetic); SciPy 1.18 call-back/exit structure; for sslsolver runs tol*||b|| >= 1e-30 (below: known finding).",
+   technique="symbolic execution of the real solver control flow with z3 Float64 path conditions (decision-prefix exploration), environment stubs for numerics and SciPy Krylov processes, replay through the public API",
+   ref="DESIGN.md §6 C01"),
+ 'C05': dict(
+   text="Bounded symbolic execution with the grid shape as z3 integers: MGParameters._max_level, _current_sc_dir, _current_lr_dir, "
+        "smoothing dispatch, multigrid recursion and _terminate run with numerics stubbed; the explorer forks on the code's "
+        "own parity/size tests so each path is a class of shapes; per path the event trace (smoothing kernel, restriction "
+        "pattern, prolongation, per level) is compared with a textbook V/W/F recursion and LIA queries show: halved "
+        "directions even and >2, never <2 cells, no line relaxation along 2 cells, bottom level == level implied by shape, "
+        "pattern and user limit == header value, sc/lr digits advance once per fine-grid cycle (also across preconditioner "
+        "calls). Helpers: unbounded n>=2. Whole cycle: all shapes with 2<=n<=16 (thorough 40; single direction 1024).",
+   note=NOTE_COMMON+" restriction's shape contract is C04(iv); residual norms are chosen so that no early exit occurs (exits are C01); the reference recursion is 40 lines written from the property text and matches the docstring figure.",
+   technique="symbolic execution with z3 Int shapes (decision-prefix path exploration = shape classes) + LIA validity queries; trace comparison against a textbook recursion; replay on the real solver module",
+   ref="DESIGN.md §6 C05"),
  'C04': dict(
    text="Bounded symbolic proof of the source: solver.restriction (core.restrict, core.restrict_weights, grid and model "
         "coarsening) and solver.prolongation (RegularGridProlongator) run on z3 Real terms with all widths, origin, model "
